@@ -865,6 +865,54 @@ func (it *Interp) binop(f *frame, x *ssa.BinOp) {
 			f.env[x] = Top(1, false)
 			return
 		}
+		// whole-array comparison (`*a == (T{})`, `*a == *b`): element-wise
+		if _, isArr := x.X.Type().Underlying().(*types.Array); isArr && (op == "==" || op == "!=") {
+			elems := func(v AnyVal, n int, w int, sg bool) []Val {
+				switch t := v.(type) {
+				case PtrV:
+					if o := it.St.Objs[t.Obj]; o.Kind == "arr" && t.Idx == -1 {
+						return o.Vals
+					}
+				case NilV:
+					out := make([]Val, n)
+					for i := range out {
+						out[i] = ConstInt(0, w, sg)
+					}
+					return out
+				}
+				return nil
+			}
+			var n, w int
+			var sg bool
+			for _, side := range []ssa.Value{x.X, x.Y} {
+				if pv, ok := it.get(f, side).(PtrV); ok {
+					if o := it.St.Objs[pv.Obj]; o.Kind == "arr" {
+						n, w, sg = len(o.Vals), o.W, o.Sg
+					}
+				}
+			}
+			ea, eb := elems(it.get(f, x.X), n, w, sg), elems(it.get(f, x.Y), n, w, sg)
+			if n > 0 && len(ea) == n && len(eb) == n {
+				allEq, anyNe := true, false
+				for i := 0; i < n; i++ {
+					r, known := Cmp("==", ea[i], eb[i])
+					if !known || !r {
+						allEq = false
+					}
+					if known && !r {
+						anyNe = true
+					}
+				}
+				switch {
+				case allEq:
+					f.env[x] = boolVal(op == "==")
+					return
+				case anyNe:
+					f.env[x] = boolVal(op != "==")
+					return
+				}
+			}
+		}
 		// pointer / nil comparisons are not modelled
 		f.env[x] = Top(1, false)
 		return
